@@ -151,6 +151,7 @@ def task_reorder(sh, mode, profile=False):
     nb, k = sh['nb'], len(sh['cons'])
     perms_c = list(itertools.permutations(range(k)))
     perms_b = list(itertools.permutations(range(nb)))
+    kl_mode = {'only-blocks': 'block-names-only', 'only-connections': 'connection-names-only'}.get(mode, 'any')
 
     def h(c):
         p = G.build(c, T, sh, alpha='lower', phys=True)
@@ -162,6 +163,13 @@ def task_reorder(sh, mode, profile=False):
             pi = selector(c, 'bperm', len(perms_b))
             flips = [1 if c.branch(z3.Bool('flip%d' % q)) else 0 for q in range(k)]
             border = list(perms_b[pi]); corder = (list(range(k))[1:] + [0]) if k else []
+        elif mode == 'only-connections':   # block_names omitted: the block list must stay as it is
+            pi = selector(c, 'cperm', len(perms_c))
+            flips = [1 if c.branch(z3.Bool('flip%d' % q)) else 0 for q in range(k)]
+            corder = list(perms_c[pi]); border = list(range(nb))
+        elif mode == 'only-blocks':        # connection_names omitted: the connection list must stay as it is
+            pi = selector(c, 'bperm', len(perms_b))
+            border = list(perms_b[pi]); corder = list(range(k)); flips = [0] * k
         else:
             pi = selector(c, 'bperm', len(perms_b))
             border = list(perms_b[pi]); corder = (list(range(k))[1:] + [0]) if k else []
@@ -173,14 +181,18 @@ def task_reorder(sh, mode, profile=False):
             cn.append((p.bnames[j], p.bnames[i]) if flips[q] else (p.bnames[i], p.bnames[j]))
         snap = G.snapshot(p.g)
         raised = None
+        give_b = mode != 'only-connections'
+        give_c = bool(cn) and mode != 'only-blocks'
         try:
-            p.g.reorder(bn, cn if cn else None)
+            p.g.reorder(bn if give_b else None, cn if give_c else None)
         except Exception as ex:
             raised = '%s: %r' % (type(ex).__name__, ex.args[:1])
         reached[0] += 1
         checks = [('raised', 'the operation completes on an input that satisfies its precondition (%s)' % raised, raised is None),
-                  ('block-order', 'block list is the requested permutation of the same objects',
+                  ('block-order', 'block list is the requested permutation of the same objects' if give_b else
+                   'block list is unchanged when no block names are given',
                    [id(b) for b in p.g.blocklist] == [id(p.blocks[i]) for i in border])]
+        checks += list_checks(snap, p.g, kl_mode)
         if cn:
             checks.append(('connection-order', 'connection list is the requested permutation of the same objects',
                            [id(x) for x in p.g.connectionlist] == [id(p.cons[q]) for q in corder]))
@@ -194,8 +206,10 @@ def task_reorder(sh, mode, profile=False):
         checks += connection_checks(snap)
         if raised: checks = checks[:1]        # nothing is claimed about the state an exception leaves behind
         def replay_of(m):
-            return dict(op='reorder', pre=G.concrete_pre(m, p), args=dict(perm=border, cons=[[q, flips[q]] for q in corder]))
-        _finish_path(c, 'reorder', sh, checks, failures, distinct, samples, replay_of, perkey)
+            return dict(op='reorder', pre=G.concrete_pre(m, p), args=dict(perm=border if give_b else None,
+                                                                          cons=[[q, flips[q]] for q in corder] if give_c else None))
+        _finish_path(c, 'reorder', sh, checks, failures, distinct, samples, replay_of, perkey,
+                     klass_default=kl_mode)
         return 'ok'
 
     res = sym.explore(h, G.FastCtx(timeout_ms=30000), max_paths=3000, profile_repo=profile)
@@ -205,12 +219,14 @@ def task_reorder(sh, mode, profile=False):
     return tr
 
 
-def task_rename(sh, m_, fix=False, then_reorder=False, alpha='lower', via='t2grid', invert=False, profile=False):
+def task_rename(sh, m_, fix=False, then_reorder=False, alpha='lower', via='t2grid', invert=False, plain=(), profile=False):
     """alpha 'alnumsp' (letters, digits, blank): names that fix_blockname rewrites ('ab1 5' means 'ab105');
     then fix must be True, the map's precondition is stated on the fixed forms (as in C08) and the expected
     name of a block is fixed(v) when its old name is fixed(k).
     via 't2data': the same rename through t2data.rename_blocks (which fixes the map itself, optionally
-    after inverting it: with invert the map handed over is {v: k})."""
+    after inverting it: with invert the map handed over is {v: k}).
+    plain: names of the map ('k0' = key of entry 0, 'w1' = target of entry 1) and block indices restricted to
+    letters (a shape choice: WHICH names of the map can need fixing; keeps the number of paths down)."""
     ld = _load(); T = ld.t2grids
     from harness import C08
     failures, samples, distinct, perkey = [], [], set(), {}
@@ -223,6 +239,10 @@ def task_rename(sh, m_, fix=False, then_reorder=False, alpha='lower', via='t2gri
         p = G.build(c, T, sh, alpha=alpha, phys=True)
         o = dict(m=m_, alpha=alpha, fix_precondition=fixpre)
         keys, vals, bm = C08._rename_map(c, p, o, p.bnames)
+        for tag in plain:
+            nm = p.bnames[tag] if isinstance(tag, int) else (keys if tag[0] == 'k' else vals)[int(tag[1:])]
+            for cell in nm.cells:
+                c.add(z3.Or(z3.And(cell.code >= 97, cell.code <= 122), z3.And(cell.code >= 65, cell.code <= 90)))
         if fixpre:      # what the documented fixing makes of the map (oracle side, no forking)
             fkeys, fvals = [C08.fixed_form(k) for k in keys], [C08.fixed_form(v) for v in vals]
         else:
@@ -260,6 +280,7 @@ def task_rename(sh, m_, fix=False, then_reorder=False, alpha='lower', via='t2gri
                    [id(b) for b in p.g.blocklist] == [id(p.blocks[i]) for i in order_b]),
                   ('connection-order', 'connection list holds the same objects in the expected order',
                    [id(x) for x in p.g.connectionlist] == [id(p.cons[q]) for q in order_c])]
+        checks += list_checks(snap, p.g)
         checks += block_checks(snap, p.g, expect_names=exp)
         checks += connection_checks(snap)
         if raised: checks = checks[:1]        # nothing is claimed about the state an exception leaves behind
@@ -272,7 +293,8 @@ def task_rename(sh, m_, fix=False, then_reorder=False, alpha='lower', via='t2gri
         return 'ok'
 
     res = sym.explore(h, G.FastCtx(timeout_ms=30000), max_paths=6000, profile_repo=profile)
-    tr = report.summarize('%s/%s/m=%d/%s%s' % (opname, G.shape_id(sh), m_, alpha, '/invert' if invert else ''), res, failures, samples,
+    tr = report.summarize('%s/%s/m=%d/%s%s%s' % (opname, G.shape_id(sh), m_, alpha, '/invert' if invert else '',
+                                                 '/plain:' + ','.join(str(x) for x in plain) if plain else ''), res, failures, samples,
                           extra=dict(distinct_obligations=len(distinct), reached=reached[0]))
     if not reached[0]: tr['error'] = 'vacuous: no path reached the obligations'
     return tr
@@ -406,13 +428,39 @@ def task_embed(sh, other, host, sub, profile=False):
     return tr
 
 
-def task_fromgeo_reorder(nx, ny, nz, atmos_type, profile=False):
-    """grid produced by the real rectangular()+fromgeo() with symbolic spacings;
-    reorder to the reversed block list with every connection listed reversed."""
+def list_checks(snap, g, klass='any'):
+    """the ordered lists (what a data file is written from) still hold every block and every connection once:
+    object identity (structure, concrete on a path) and the totals a missing or doubled entry changes (symbolic)."""
+    out = []
+    ids_b, ids_c = [id(b) for b in g.blocklist], [id(x) for x in g.connectionlist]
+    out.append(('blocks-not-all-listed', 'the block list holds every block of the grid exactly once (%d listed, %d before)'
+                % (len(ids_b), len(snap.blocks)), sorted(ids_b) == sorted(id(t[0]) for t in snap.blocks), klass))
+    out.append(('connections-not-all-listed', 'the connection list holds every connection of the grid exactly once (%d listed, %d before)'
+                % (len(ids_c), len(snap.cons)), sorted(ids_c) == sorted(id(t[0]) for t in snap.cons), klass))
+    tot0 = tot1 = None
+    for t in snap.blocks: tot0 = t[2] if tot0 is None else tot0 + t[2]
+    for b in g.blocklist: tot1 = b.volume if tot1 is None else tot1 + b.volume
+    out.append(('listed-volume', 'the volumes of the listed blocks add up to the same total', req(tot1, tot0), klass))
+    ar0 = ar1 = None
+    for t in snap.cons: ar0 = t[3] if ar0 is None else ar0 + t[3]
+    for x in g.connectionlist: ar1 = x.area if ar1 is None else ar1 + x.area
+    out.append(('listed-area', 'the interface areas of the listed connections add up to the same total', req(ar1, ar0), klass))
+    return out
+
+
+def task_fromgeo_reorder(nx, ny, nz, atmos_type, how='explicit', scramble='rev-all', profile=False):
+    """grid produced by the real rectangular()+fromgeo() with symbolic spacings.
+    how 'explicit': reorder to the reversed block list with every connection listed reversed.
+    how 'geo': the grid is first scrambled with explicit lists (`scramble`: 'none', 'rev-all' = both lists reversed and
+               every connection listed reversed, 'rev-alt' = both lists reversed, every other connection listed reversed),
+               then put back into geometry order with reorder(geo = geo): the lists must be the geometry's lists
+               (geo.block_name_list / geo.block_connection_name_list, every block and connection still listed)."""
     ld = _load(); T = ld.t2grids
     failures, samples, distinct, perkey = [], [], set(), {}
     reached = [0]
-    shname = 'rect%dx%dx%d_atm%d' % (nx, ny, nz, atmos_type)
+    shname = 'rect%dx%dx%d_atm%d' % (nx, ny, nz, atmos_type) + ('' if how == 'explicit' else '_geo_' + scramble)
+    op = 'reorder' if how == 'explicit' else 'reorder(geo)'
+    klass = 'any' if how == 'explicit' else 'atmosphere-type-%d' % atmos_type
 
     def h(c):
         dx = [c.real('dx%d' % i, 0, strict_lo=True) for i in range(nx)]
@@ -422,14 +470,37 @@ def task_fromgeo_reorder(nx, ny, nz, atmos_type, profile=False):
         g = T.t2grid().fromgeo(geo)
         snap = G.snapshot(g)
         bn = [b.name for b in g.blocklist][::-1]
-        cn = [tuple(b.name for b in con.block)[::-1] for con in g.connectionlist]
-        g.reorder(bn, cn)
+        raised = None
+        if how == 'explicit':
+            cn = [tuple(b.name for b in con.block)[::-1] for con in g.connectionlist]
+            g.reorder(bn, cn)
+            want_b, want_c = bn, cn
+        else:
+            cn = [tuple(b.name for b in con.block) for con in g.connectionlist][::-1]
+            if scramble == 'rev-all': cn = [t[::-1] for t in cn]
+            elif scramble == 'rev-alt': cn = [t[::-1] if q % 2 == 0 else t for q, t in enumerate(cn)]
+            if scramble != 'none': g.reorder(bn, cn)
+            try:
+                g.reorder(geo=geo)
+            except Exception as ex:
+                raised = '%s: %r' % (type(ex).__name__, ex.args[:1])
+            want_b, want_c = list(geo.block_name_list), list(geo.block_connection_name_list)
         reached[0] += 1
-        checks = block_checks(snap, g) + connection_checks(snap)
+        checks = [('raised', 'the operation completes on an input that satisfies its precondition (%s)' % raised, raised is None, klass),
+                  ('block-order', 'the block list is in the requested order',
+                   z_and([len(g.blocklist) == len(want_b)] + [eqf(b.name, n) for b, n in zip(g.blocklist, want_b)]), klass),
+                  ('connection-order', 'the connection list is in the requested order and orientation',
+                   z_and([len(g.connectionlist) == len(want_c)] +
+                         [G.tup_eq(tuple(b.name for b in x.block), tuple(n)) for x, n in zip(g.connectionlist, want_c)]), klass)]
+        checks += list_checks(snap, g, klass)
+        checks += [t + (klass,) for t in block_checks(snap, g)]
+        checks += [t[:3] + ((klass + ',' + t[3]) if how != 'explicit' else t[3],) for t in connection_checks(snap)]
+        if raised: checks = checks[:1]
         def replay_of(m):
             return dict(op='fromgeo_reorder', args=dict(dx=[num_value(m, x) for x in dx], dy=[num_value(m, x) for x in dy],
-                                                         dz=[num_value(m, x) for x in dz], atmos_type=atmos_type))
-        _finish_path(c, 'reorder', shname, checks, failures, distinct, samples, replay_of, perkey)
+                                                         dz=[num_value(m, x) for x in dz], atmos_type=atmos_type,
+                                                         how=how, scramble=scramble))
+        _finish_path(c, op, shname, checks, failures, distinct, samples, replay_of, perkey)
         return 'ok'
 
     res = sym.explore(h, G.FastCtx(timeout_ms=30000), max_paths=200, profile_repo=profile)
@@ -467,6 +538,26 @@ def catalogue(tier):
         ren += [(3, [(0, 1), (1, 2), (2, 0)], 3), (4, [(0, 1), (2, 1), (2, 3), (3, 0)], 2)]
     for nb, cons, m_ in ren:
         add(task_rename, sh=G.shape(nb, cons, nr=2), m_=m_, fix=(m_ == 1))
+    # entry forms of reorder with one of the two lists omitted (the other list must stay exactly as it is)
+    for nb, sub in [(2, [(0, 1)]), (3, [(0, 1), (1, 2), (0, 2)])] + ([] if tier == 'quick' else [(4, [(0, 1), (1, 2), (2, 3), (0, 3)]), (4, [(0, 1), (0, 2), (0, 3)])]):
+        sh = G.shape(nb, G.orient(sub, 'alt'), nr=2)
+        add(task_reorder, sh=sh, mode='only-blocks')
+        add(task_reorder, sh=sh, mode='only-connections')
+    # rename maps typed the TOUGH2 way ('ab1 5' for 'ab105'), fix_blocknames=True: names over letters, digits, blank;
+    # through t2grid.rename_blocks and through t2data.rename_blocks (which fixes the map itself, optionally inverted)
+    A = 'alnumsp'
+    add(task_rename, sh=G.shape(2, [(0, 1)], nr=2), m_=1, fix=True, alpha=A)
+    add(task_rename, sh=G.shape(2, [(1, 0)], nr=2), m_=1, fix=True, alpha=A, via='t2data')
+    add(task_rename, sh=G.shape(2, [(1, 0)], nr=2), m_=1, fix=True, alpha=A, via='t2data', invert=True)
+    add(task_rename, sh=G.shape(2, [(0, 1)], nr=2), m_=2, fix=True, alpha=A, plain=['k0', 'w1'])        # {b: 'QQ1 5', 'QQ1 5': b}
+    if tier != 'quick':
+        add(task_rename, sh=G.shape(3, [(0, 1), (2, 1)], nr=2), m_=1, fix=True, alpha=A)
+        add(task_rename, sh=G.shape(3, [(0, 1), (2, 1)], nr=2), m_=1, fix=True, alpha=A, then_reorder=True)
+        add(task_rename, sh=G.shape(2, [(0, 1)], nr=2), m_=2, fix=True, alpha=A, plain=['k1', 'w1', 1])
+        add(task_rename, sh=G.shape(2, [(0, 1)], nr=2), m_=2, fix=True, alpha=A, plain=['k0', 'w1'], via='t2data')
+        add(task_rename, sh=G.shape(2, [(0, 1)], nr=2), m_=2, fix=True, alpha=A, plain=['w0', 'k1'], via='t2data', invert=True)
+        add(task_rename, sh=G.shape(3, [(0, 1), (2, 1)], nr=2), m_=2, fix=True, alpha=A, plain=['k0', 'w1', 2])
+        add(task_rename, sh=G.shape(2, [(0, 1)], nr=2), m_=2, fix=True, alpha=A)      # every name of the map may need fixing (1792 paths, ~5 min on one core)
     # composition rename -> reorder (with reversals) on the renamed grid
     add(task_rename, sh=G.shape(3, [(0, 1), (2, 1)], nr=2), m_=2, fix=False, then_reorder=True)
     if tier != 'quick':
@@ -498,6 +589,11 @@ def catalogue(tier):
     if tier != 'quick':
         add(task_fromgeo_reorder, nx=2, ny=2, nz=2, atmos_type=0)
         add(task_fromgeo_reorder, nx=3, ny=1, nz=2, atmos_type=2)
+    # the geo form of reorder: scrambled grid put back into geometry order with reorder(geo = geo)
+    for dims in [(2, 1, 2), (2, 2, 2)] + ([] if tier == 'quick' else [(3, 1, 2), (3, 2, 3), (1, 1, 1), (1, 2, 3)]):
+        for at in (0, 1, 2):
+            for scr in ('none', 'rev-all', 'rev-alt'):
+                add(task_fromgeo_reorder, nx=dims[0], ny=dims[1], nz=dims[2], atmos_type=at, how='geo', scramble=scr)
     seen = set()
     for f, kw in tasks:        # the slow sys.setprofile pass (which repo functions ran) once per kind of task
         if f not in seen and (f is task_fromgeo_reorder or kw['sh']['nb'] >= 2):
@@ -512,9 +608,12 @@ def schedule(tasks):
         f, kw = t
         if f is task_reorder:
             nb, k = kw['sh']['nb'], len(kw['sh']['cons'])
-            return {'connections': factorial(k) * 2 ** k, 'both': factorial(nb) * 2 ** k, 'blocks': factorial(nb)}[kw['mode']]
+            return {'connections': factorial(k) * 2 ** k, 'both': factorial(nb) * 2 ** k, 'blocks': factorial(nb),
+                    'only-connections': factorial(k) * 2 ** k, 'only-blocks': factorial(nb)}[kw['mode']]
         if f is task_minc: return 4 ** kw['sh']['nb'] * len(kw['fractions'])
-        if f is task_rename: return (kw['sh']['nb'] + 1) ** kw['m_']
+        if f is task_rename:
+            if kw.get('alpha', 'lower') != 'lower': return (60 * 4 ** kw['m_']) * (1 if kw.get('plain') or kw['m_'] < 2 else 100)
+            return (kw['sh']['nb'] + 1) ** kw['m_']
         return 5
     return sorted(tasks, key=lambda t: -weight(t))
 
@@ -539,6 +638,16 @@ def run(tier, seed, rep):
         '(all connections reversed)' % ('cycle, path, star, two disjoint pairs' if tier == 'quick' else 'every connection subset of <=4 pairs'),
         'all physical data symbolic: volumes and centres any real, distances >= 0, area > 0, cosine in [-1,1], direction 1..3, nad 0..99',
         'rename_blocks: one-to-one symbolic maps of 1..%d entries on 2..%d blocks, names over [a-z]' % (2 if tier == 'quick' else 3, 3 if tier == 'quick' else 4),
+        'rename maps typed the TOUGH2 way (fix_blocknames=True, names over letters, digits and blank, so that fix_blockname really rewrites keys and '
+        'targets): through t2grid.rename_blocks and through t2data.rename_blocks (also invert=True); 1 entry on 2%s blocks, 2 entries on 2%s blocks with '
+        '%s' % ((' and 3', ' and 3', 'two of the four names of the map restricted to letters (several choices) and, on 2 blocks, all four names unrestricted')
+                if tier != 'quick' else ('', '', 'key of entry 0 and target of entry 1 restricted to letters (the pattern {b: "ab1 5", "ab1 5": b})')),
+        'reorder with only block_names or only connection_names given (the other list must stay as it is): 2 blocks and the triangle%s, every permutation '
+        '(x every reversal subset)' % ('' if tier == 'quick' else ', 4-cycle and star on 4 blocks'),
+        'reorder(geo = geo): grids from rectangular()+fromgeo() with symbolic spacings, %s, atmosphere types 0,1,2, unscrambled / both lists reversed and every '
+        'connection listed reversed / every other connection listed reversed, then put back into geometry order' % (
+            '2x1x2 and 2x2x2' if tier == 'quick' else '2x1x2, 2x2x2, 3x1x2, 3x2x3, 1x1x1, 1x2x3'),
+        'every reorder / rename task also proves that each block and each connection is still listed exactly once and that the listed volumes / areas keep their totals',
         'MINC: concrete fraction lists of length 2..%d (floats lifted to exact rationals), 1..3 fracture-plane sets, concrete spacings, '
         'whole grid / partial selection, 1..%d blocks with symbolic volumes (any real: blocks with volume <= 0 or >= 1e25 must be left alone)' % (3 if tier == 'quick' else 6, 2 if tier == 'quick' else 3),
         'embed: host grids of 1..%d blocks, sub-grids of 1..2 blocks, symbolic volumes and names (aliasing decided by the solver)' % (2 if tier == 'quick' else 4),
@@ -559,6 +668,10 @@ def run(tier, seed, rep):
         'reversing a connection must swap the two distances and nad1/nad2 and negate the direction cosine '
         '(fromgeo gives vertical connections [upper, lower] the cosine -1, horizontal ones dot(centre[1]-centre[0], tilt))',
         'rename_blocks: map one-to-one, no target equals the name of a block that is not renamed',
+        'fix_blocknames=True: a name with a blank in the 4th column between two digits stands for the name with a zero there (fix_blockname), in keys and in '
+        'targets; the precondition on the map is stated on those fixed forms and the grid\'s own names are in fixed form (as in C08; grids from geometries and '
+        'from data files are); expected name of a block = fixed(target) of the entry whose fixed(key) is its old name',
+        'reorder(geo = geo) must produce the lists geo.block_name_list / geo.block_connection_name_list (atmosphere blocks included)',
         'MINC tolerance 1e-12 relative (statement); requested fraction = f_k / sum(f) over the exact values of the given floats',
         'embed: connection = [block of the host grid, block of the sub-grid]',
     ]
